@@ -10,7 +10,7 @@ import common as C
 import pgen
 
 CORE = {"atom", "panic", "yield", "yieldx", "block", "if", "switch", "for", "break", "continue", "return",
-        "decl", "inc", "use", "closure", "call", "fallthrough", "yieldfrom", "rangeiter", "range"}
+        "decl", "redecl", "inc", "use", "closure", "call", "fallthrough", "yieldfrom", "rangeiter", "range"}
 
 
 def norm(t):
